@@ -10,7 +10,7 @@
    pass; wasmparser itself (framing, LEB decoding, operator decoding) is outside the model.
 
    The panic sites are numbered; `known_panic_sites` is the committed table of the known ones.  Every one of
-   them is a genuine defect of /repo (see known_findings.json D09a..D09m). *)
+   them is a genuine defect of /repo (see known_findings.json D09a..D09l). *)
 From Coq Require Import List NArith Bool.
 Import ListNotations.
 Local Open Scope N_scope.
@@ -32,12 +32,11 @@ Definition site_namemap           := 909. (* wrappers.rs namemap_parser2encoder:
 Definition site_indirect_namemap  := 910. (* wrappers.rs indirect_namemap_parser2encoder: name.unwrap() *)
 Definition site_comp_namemap      := 911. (* wrappers.rs add_to_namemap: name.unwrap() *)
 Definition site_comp_slice        := 912. (* component.rs parse_comp: &wasm[unchecked_range...] *)
-Definition site_locals_overflow   := 913. (* mod.rs parse_internal: num_locals += count (builds with overflow checks) *)
 
 Definition known_panic_sites : list N :=
   [site_name_func_index; site_producers_none; site_producers_field; site_producers_values; site_tag_section;
    site_const_expr_op; site_func_type_missing; site_func_type_kind; site_namemap; site_indirect_namemap;
-   site_comp_namemap; site_comp_slice; site_locals_overflow].
+   site_comp_namemap; site_comp_slice].
 
 (* ---------------------------------------------------------------------------------------------- *)
 (* the abstraction of a core module's payload stream *)
@@ -75,7 +74,7 @@ Inductive mev :=
 | MStart
 | MDataCount (n : N)
 | MCodeStart (n : N)
-| MCodeEntry (locals_ok sum_overflows ops_ok last_end nzmem : bool)
+| MCodeEntry (locals_ok ops_ok last_end nzmem : bool)
 | MTags (l : list bool)
 | MName (l : list nsub)
 | MProducers (p : prod)
@@ -163,7 +162,7 @@ Definition run_producers (p : prod) : outcome :=
   end.
 
 (* one payload: either the scan goes on with a new state, or it stops with an outcome *)
-Definition step (ovf mm : bool) (st : mstate) (e : mev) : mstate + outcome :=
+Definition step (mm : bool) (st : mstate) (e : mev) : mstate + outcome :=
   let go := inl st in
   match e with
   | MErr => inr OErr
@@ -184,9 +183,8 @@ Definition step (ovf mm : bool) (st : mstate) (e : mev) : mstate + outcome :=
               else inl (mkMS (ms_nimpf st) (ms_types st) (ms_funcs st) (ms_code_count st) (ms_ncode st) true (ms_data_count st) (ms_ndata st))
   | MDataCount n => inl (mkMS (ms_nimpf st) (ms_types st) (ms_funcs st) (ms_code_count st) (ms_ncode st) (ms_start st) (Some n) (ms_ndata st))
   | MCodeStart n => inl (mkMS (ms_nimpf st) (ms_types st) (ms_funcs st) n (ms_ncode st) (ms_start st) (ms_data_count st) (ms_ndata st))
-  | MCodeEntry locals_ok sum_ovf ops_ok last_end nzmem =>
-      if negb locals_ok then inr OErr
-      else if sum_ovf && ovf then inr (OPanic site_locals_overflow)
+  | MCodeEntry locals_ok ops_ok last_end nzmem =>
+      if negb locals_ok then inr OErr   (* includes wasmparser's own "too many locals": the running sum cannot overflow *)
       else if negb ops_ok then inr OErr
       else if negb last_end then inr OErr
       else if negb mm && nzmem then inr OErr
@@ -201,7 +199,7 @@ Definition step (ovf mm : bool) (st : mstate) (e : mev) : mstate + outcome :=
   end.
 
 (* after the scan: the count checks, then one Function per code body -- types[&functions[index]].params() *)
-Fixpoint check_func_types (types : list bool) (funcs : list N) (n : nat) : outcome :=
+Fixpoint check_func_types (types : list bool) (funcs : list N) (n : nat) {struct n} : outcome :=
   match n, funcs with
   | O, _ => OOk
   | S n', [] => OUnmodelled   (* excluded by the count check *)
@@ -219,14 +217,14 @@ Definition finish (st : mstate) : outcome :=
        | None => check_func_types (ms_types st) (ms_funcs st) (N.to_nat (ms_ncode st))
        end.
 
-Fixpoint scan (ovf mm : bool) (st : mstate) (l : list mev) : outcome :=
+Fixpoint scan (mm : bool) (st : mstate) (l : list mev) : outcome :=
   match l with
   | [] => finish st
-  | e :: r => match step ovf mm st e with inl st' => scan ovf mm st' r | inr o => o end
+  | e :: r => match step mm st e with inl st' => scan mm st' r | inr o => o end
   end.
 
-(* Module::parse(bytes, enable_multi_memory) on a build of the library with / without overflow checks *)
-Definition parse_glue (ovf mm : bool) (s : list mev) : outcome := scan ovf mm ms0 s.
+(* Module::parse(bytes, enable_multi_memory) *)
+Definition parse_glue (mm : bool) (s : list mev) : outcome := scan mm ms0 s.
 
 (* ---------------------------------------------------------------------------------------------- *)
 (* Component::parse: the payload stream in document order; a nested module is parsed by the module glue when
@@ -252,19 +250,19 @@ Fixpoint run_cname (l : list csub) : outcome :=
   | CSMap ok :: r => if ok then run_cname r else OPanic site_comp_namemap
   | CSOther :: r => run_cname r
   end.
-Definition cstep (ovf mm : bool) (e : cev) : outcome :=
+Definition cstep (mm : bool) (e : cev) : outcome :=
   match e with
   | CErr => OErr
   | CItems ok => if ok then OOk else OErr
-  | CModule ok m => if ok then parse_glue ovf mm m else OPanic site_comp_slice
+  | CModule ok m => if ok then parse_glue mm m else OPanic site_comp_slice
   | CEnter ok => if ok then OOk else OPanic site_comp_slice
   | CName l => run_cname l
   | CUnknown => OErr
   | CSkip => OOk
   | CUnmodelled => OUnmodelled
   end.
-Fixpoint parse_comp_glue (ovf mm : bool) (l : list cev) : outcome :=
+Fixpoint parse_comp_glue (mm : bool) (l : list cev) : outcome :=
   match l with
   | [] => OOk
-  | e :: r => match cstep ovf mm e with OOk => parse_comp_glue ovf mm r | o => o end
+  | e :: r => match cstep mm e with OOk => parse_comp_glue mm r | o => o end
   end.
